@@ -284,6 +284,13 @@ def c07_5(R):
             R.ok("control-packet-sent=>on_packet_sent", scp.name)
         else:
             R.fail([scp.name, "on_packet_sent-not-after-successful-send"], "on_packet_sent is invoked although the control packet was not handed to the transport", where=t.where(), instance="control-packet-sent=>on_packet_sent")
+    # ... and never claims to have sent (Ok(true)) without having passed the transport call
+    sends = {x.bb for x in scp.calls() if call_matches(x, ("UtpSocket::try_poll_send_to",))}
+    lied = [it for it, cls in ret_assignments(scp) if cls.startswith("Ok(") and cls != "Ok(const:0)" and not must_pass_blocks(scp, [it.bb], sends)[0]]
+    if sends and not lied:
+        R.ok("control-packet: Ok(true)=>handed-to-transport", scp.name, "only Ok(false) is returned without passing try_poll_send_to")
+    else:
+        R.fail([scp.name, "Ok(sent)-without-send"], "send_control_packet can report a packet as sent without handing it to the transport: callers arm timers / advance state for a FIN or ACK that never left", where=(lied[0].where() if lied else scp.where()), instance="control-packet: Ok(true)=>handed-to-transport")
     # window update predicate
     w = R.body(VS + "::should_send_window_update")
     okx = False
